@@ -1,9 +1,10 @@
 (* Extraction of the C06 model for the correspondence driver.  ExtrOcamlBasic and
    ExtrOcamlString only: N, Z, positive, nat stay the extracted inductive datatypes. *)
-From SV Require Import Base.Prelude Model.Retry Model.Fiber.
+From SV Require Import Base.Prelude Model.Retry Model.Fiber Model.E2EAttempts.
 Require Extraction.
 Require Import ExtrOcamlBasic ExtrOcamlString.
 Extraction Language OCaml.
 Extraction "../ocaml/c06/model.ml" new_session decide decide_history safe_errorb named_unsafe_errorb
   is_retry is_same_target carried prop_decision_ok prop_history_ok same_target_budget fiber
-  attempts conn_fails attempt_cls prop_trace_ok.
+  attempts conn_fails attempt_cls prop_trace_ok
+  e2e_check check_single check_multi fiber_check prop_frames overlap_ok mkFrame mkCert.
